@@ -221,7 +221,9 @@ func (t *callTracer) CaptureAspectExit(joinpoint types.JoinPointRunType, result 
 	// reset join point if we exit
 	last := len(t.callstack) - 1
 	t.callstack[last].joinPoint = types.JoinPointRunType_Unknown
-	for i := range t.callstack[last].JoinPoints {
+	// the frame that exits is the most recent one of this join point: several aspects can
+	// be bound to the same join point of one call
+	for i := len(t.callstack[last].JoinPoints) - 1; i >= 0; i-- {
 		if t.callstack[last].JoinPoints[i].Type == joinpoint {
 			t.callstack[last].JoinPoints[i].GasUsed = t.callstack[last].JoinPoints[i].Gas - result.Gas
 			t.callstack[last].JoinPoints[i].processOutput(result.Ret, result.Err)
